@@ -118,6 +118,12 @@ structure CacheView where
   ts_sum : Nat := 0                 -- u128
   resample_state : Nat := 0         -- the library's u64 `ResampleState` (harness resampler `Lin`)
 
+/-- the `write_all` calls of the write path (`Data::push_data`, `Index::update`), in order -/
+inductive IoW where
+  | dataWrite (b : Bytes)
+  | indexWrite (b : Bytes)
+deriving Repr, DecidableEq
+
 /-- what `push_line` touches of a `ByteSeries` -/
 structure SeriesView where
   data : DataView
@@ -129,6 +135,8 @@ structure Index where
   last_timestamp : Option Nat
 
 def Rs.indexOf (v : DataView) : Index := ⟨v.entries, v.lastFull⟩
+/-- writing a changed `Index` back into the view (`self.index.update(..)` inside `Data`) -/
+def Rs.withIndex (v : DataView) (i : Index) : DataView := { v with entries := i.entries, lastFull := i.last_timestamp }
 
 
 end BS.Gen
